@@ -1,1 +1,14 @@
-fn main() { println!("stub"); }
+//! Sequential ADT drivers (B3 behaviour replay) — DESIGN.md §7.3.
+mod c14;
+
+fn main() {
+    let a: Vec<String> = std::env::args().collect();
+    let cmd = a.get(1).map(|s| s.as_str()).unwrap_or("");
+    match cmd {
+        "c14" => c14::main(),
+        _ => {
+            eprintln!("usage: vadt <c14|c13|c40|c42> [options]");
+            std::process::exit(2);
+        }
+    }
+}
